@@ -364,11 +364,23 @@ func (d c08) Execute(c *core.Case) *core.Result {
 						}
 						truth := l.Decide(p).Authorized
 						if tp := l.PolicyBefore(p); tp != nil && cacheLogLen <= p {
-							if sp := l.PolicyAsOf(cacheLogLen); sp != tp && l.DecideUnder(p, sp, l.AttBefore(p)).Authorized != truth {
-								feat = append(feat, "stale-policy-answer-explains")
+							// the stale index is complete up to the cache point and has, beyond it, only what later
+							// verification walks happened to insert: a lookup may return ANY earlier state instead
+							// of one recorded after the cache point
+							for q := 0; q < p; q++ {
+								e := w.Entries[q]
+								if e.Kind != "reference" {
+									continue
+								}
+								if e.Ref == policyRef && e.Policy != nil && e.Policy != tp && l.PolicyBefore(p) != e.Policy && l.DecideUnder(p, e.Policy, l.AttBefore(p)).Authorized != truth {
+									feat = append(feat, "stale-policy-answer-explains")
+								}
+								if e.Ref == attRef && l.DecideUnder(p, tp, e.Att).Authorized != truth {
+									feat = append(feat, "stale-approvals-answer-explains")
+								}
 							}
-							if sa := l.AttAsOf(cacheLogLen); l.DecideUnder(p, tp, sa).Authorized != truth {
-								feat = append(feat, "stale-approvals-answer-explains")
+							if l.DecideUnder(p, tp, nil).Authorized != truth {
+								feat = append(feat, "stale-approvals-answer-explains") // no attestation state known at all
 							}
 						}
 					}
